@@ -719,3 +719,65 @@ impl HistGen {
 		Some(self.decorate(run, st))
 	}
 }
+
+/// A scripted complete send (initiate, receive, reserve, finalize, post, mine) between
+/// two wallets, spliced into a generated history by a property module; the message
+/// indices become known as the steps execute.
+pub struct SendScript {
+	pub a: usize,
+	pub b: usize,
+	pub args: SendArgs,
+	pub dest: Option<String>,
+	pub stage: u32,
+	/// last stage to perform: 1 init, 2 receive, 3 lock, 4 finalize, 5 post, 6 mine
+	pub upto: u32,
+	pub m1: Option<usize>,
+	pub m2: Option<usize>,
+	pub m3: Option<usize>,
+	pub failed: bool,
+}
+
+impl SendScript {
+	pub fn new(a: usize, b: usize, args: SendArgs, upto: u32) -> SendScript {
+		SendScript { a, b, args, dest: None, stage: 0, upto, m1: None, m2: None, m3: None, failed: false }
+	}
+
+	pub fn done(&self) -> bool {
+		self.failed || self.stage >= self.upto
+	}
+
+	pub fn next(&mut self) -> Option<Step> {
+		if self.done() {
+			return None;
+		}
+		let late = self.args.late_lock;
+		let op = match self.stage {
+			0 => Op::InitSend { w: self.a, args: self.args.clone() },
+			1 => Op::Receive { w: self.b, m: self.m1?, dest: self.dest.clone(), enc: Enc::Mem },
+			2 if late => {
+				self.stage += 1;
+				Op::Finalize { w: self.a, m: self.m2?, foreign: false }
+			}
+			2 => Op::Lock { w: self.a, m: self.m1? },
+			3 => Op::Finalize { w: self.a, m: self.m2?, foreign: false },
+			4 => Op::Post { w: self.a, m: self.m3? },
+			5 => Op::Mine { w: None, n: 1, txs: true },
+			_ => return None,
+		};
+		self.stage += 1;
+		Some(Step::new(op))
+	}
+
+	/// to be called from the property's `after` for every step while the script runs
+	pub fn feedback(&mut self, step: &Step, out: &crate::ops::StepOut) {
+		match (&step.op, out.new_msg) {
+			(Op::InitSend { .. }, Some(m)) if self.stage == 1 => self.m1 = Some(m),
+			(Op::Receive { .. }, Some(m)) if self.stage == 2 => self.m2 = Some(m),
+			(Op::Finalize { .. }, Some(m)) if self.stage == 4 => self.m3 = Some(m),
+			_ => {}
+		}
+		if !out.ok && !matches!(step.op, Op::Refresh { .. }) {
+			self.failed = true;
+		}
+	}
+}
